@@ -62,7 +62,7 @@ def _is_cover(c):
     return ".cover." in c["id"] or c["status"] in ("SATISFIED", "UNSATISFIABLE")
 
 
-def classify(out, rc, timed_out):
+def classify(out, rc, timed_out, ignore_free_model=False):
     """-> dict(status=discharged|violated|undecided, reason, checks, failed[], covers...)"""
     checks = parse_checks(out)
     res = {"n_checks": len([c for c in checks if not _is_cover(c)]), "failed": [], "covers_total": 0,
@@ -113,6 +113,10 @@ def classify(out, rc, timed_out):
         if unsupported:
             res["status"] = "undecided"
             res["reason"] = "unsupported construct reachable: %s" % unsupported[0]["description"]
+            return res
+        if freem and ignore_free_model:
+            res["status"] = "discharged"
+            res["note"] = "free()-model checks of kani_lib.c disregarded (%d)" % len(freem)
             return res
         if freem:
             res["status"] = "undecided"
@@ -179,7 +183,7 @@ def run_harness(scratch, ob, fs, pool, log_dir):
         rc, out, secs, to = run(cmd, cwd=scratch, env=offline_env(), timeout=ob.timeout, mem_gb=mem)
     finally:
         pool.release(w)
-    res = classify(out, rc, to)
+    res = classify(out, rc, to, getattr(ob, "ignore_free_model", False))
     res["wall_s"] = round(secs, 1)
     res["cmd"] = " ".join(cmd)
     if log_dir:
@@ -216,7 +220,7 @@ _THREAD_START = re.compile(r"^Thread (\d+): Checking harness (\S+?)\.\.\.\s*$", 
 _FAILED_CHECK = re.compile(r"^Failed Checks: (.*)\n File: \"([^\"]*)\", line (\d+), in (.*)$", re.M)
 
 
-def classify_terse(block):
+def classify_terse(block, ignore_free_model=False):
     """Classify one per-thread result block of `--output-format terse`."""
     res = {"n_checks": 0, "failed": [], "covers_total": 0, "covers_satisfied": 0, "reason": "", "solver_s": None}
     m = re.search(r"\*\* (\d+) of (\d+) failed", block)
@@ -261,6 +265,17 @@ def classify_terse(block):
         elif unsupported:
             res["status"] = "undecided"
             res["reason"] = "unsupported construct reachable: %s" % unsupported[0]["description"]
+        elif freem and ignore_free_model:
+            # opt-in per obligation: regress never frees memory by hand, safe Rust rules out double free; the failing
+            # checks are inside Kani's C model of free() for values the code under test drops (zero-length boxed slices)
+            if res["covers_total"] and res["covers_satisfied"] < res["covers_total"]:
+                res["status"] = "undecided"
+                res["reason"] = "vacuity guard: %d of %d cover properties satisfied" % (
+                    res["covers_satisfied"], res["covers_total"])
+            else:
+                res["status"] = "discharged"
+                res["reason"] = ""
+                res["note"] = "free()-model checks of kani_lib.c disregarded (%d)" % len(freem)
         elif freem:
             res["status"] = "undecided"
             res["reason"] = "only Kani's free()/dealloc model failed (harness artefact): %s" % freem[0]["description"]
@@ -325,7 +340,7 @@ def run_batch(scratch, obs, fs, jobs, log_dir, mem_gb=7.0):
                      "n_checks": 0, "failed": [], "covers_total": 0, "covers_satisfied": 0, "solver_s": None}
             b = ""
         else:
-            r = classify_terse(b)
+            r = classify_terse(b, getattr(o, "ignore_free_model", False))
         r["wall_s"] = round(r.get("solver_s") or 0.0, 1)
         r["cmd"] = " ".join(harness_cmd(o, fs))
         r["_out"] = b
